@@ -11,6 +11,8 @@ import Homonim.GeneratedCode
 import Homonim.Model.Stats
 import Mathlib.Tactic.Ring
 import Mathlib.Tactic.FieldSimp
+import Mathlib.Tactic.Linarith
+import Mathlib.Tactic.NormNum
 namespace Homonim
 open Homonim.Src
 
@@ -55,5 +57,29 @@ theorem src_C12_param_stats (a : PAcc) (w : Bool) (h : a.n ≠ 0) :
   rw [if_neg h]
   simp only [PStats.mk.injEq, Option.some.injEq, true_and, and_true]
   ring
+
+
+/-- `get_block_sums`: what one jointly valid pixel adds to the seven sums is what the model's `blockSums` adds -/
+theorem src_C11_block_sums (pts : List (Rat × Rat)) :
+    blockSums pts = pts.foldl (fun s x => s.add ⟨cmpPx_src x.1 x.2, cmpPx_ref x.1 x.2, cmpPx_src2 x.1 x.2, cmpPx_ref2 x.1 x.2,
+      cmpPx_srcRef x.1 x.2, cmpPx_res2 x.1 x.2, cmpPx_n x.1 x.2⟩) CSums.zero := by
+  unfold blockSums cmpPx_src cmpPx_ref cmpPx_src2 cmpPx_ref2 cmpPx_srcRef cmpPx_res2 cmpPx_n
+  congr 1
+  funext s x
+  congr 1
+  simp only [CSums.mk.injEq, true_and, and_true]
+  refine ⟨by ring, by ring, by ring⟩
+
+/-- `ParamStats`: the R2 bands are those with `band_i >= count * 2 / 3`; a pixel counts as in-painted when `R2 < thresh` -/
+theorem src_C12_r2_band (count b : Nat) : isR2Band count b = stats_isR2Band count b := by
+  unfold isR2Band stats_isR2Band
+  rw [Bool.eq_iff_iff]
+  simp only [decide_eq_true_eq]
+  rw [div_le_iff₀ (by norm_num : (0 : ℚ) < 3)]
+  constructor
+  · intro h; exact_mod_cast (by omega : count * 2 ≤ b * 3)
+  · intro h
+    have : count * 2 ≤ b * 3 := by exact_mod_cast h
+    omega
 
 end Homonim
